@@ -365,6 +365,39 @@ fn main() {
                 }
                 out.join(" ")
             }
+            // tflag <n> (<first> <last> <unresolved 0|1>)*n <nf> <nl> <unresolved>: table built by real adds, then one add; prints flag before/after and which tablets are unresolved
+            "tflag" => {
+                let n = num(1) as usize;
+                let mut t = vh::Tablets::new();
+                for i in 0..n {
+                    let (f, l, u) = (num(2 + 3 * i) as i64, num(3 + 3 * i) as i64, num(4 + 3 * i) == 1);
+                    if u { t.add(f, l, i as u32) } else { t.add_resolved(f, l) }
+                }
+                let before = t.flag();
+                let b = 2 + 3 * n;
+                if num(b + 2) == 1 { t.add(num(b) as i64, num(b + 1) as i64, 1000) } else { t.add_resolved(num(b) as i64, num(b + 1) as i64) }
+                let unresolved = (0..t.len()).filter(|i| t.get(*i).2 != u32::MAX).count();
+                format!("before={} after={} unresolved_after={}", before, t.flag(), unresolved)
+            }
+            // tinfo <table>:<first>:<last>:<unresolved 0|1> ...: TabletsInfo built by real adds; prints the flags and every table's ranges
+            "tinfo" => {
+                let mut info = vh::TabletsOfTables::new();
+                let mut names: Vec<String> = Vec::new();
+                let mut flags: Vec<String> = Vec::new();
+                for op in &a[1..] {
+                    let p: Vec<&str> = op.split(':').collect();
+                    info.add(p[0], p[1].parse().unwrap(), p[2].parse().unwrap(), p[3] == "1");
+                    if !names.contains(&p[0].to_string()) { names.push(p[0].to_string()); }
+                    flags.push(if info.flag() { "1".into() } else { "0".into() });
+                }
+                names.sort();
+                let mut out = format!("flags={}", flags.join(""));
+                for nme in names {
+                    let (fl, rs) = info.table(&nme).unwrap();
+                    out += &format!(" {}={}:{}", nme, if fl { 1 } else { 0 }, rs.iter().map(|(x, y)| format!("{},{}", x, y)).collect::<Vec<_>>().join(";"));
+                }
+                out
+            }
             "token_new" => Token::new(num(1) as i64).value().to_string(),
             _ => "UNKNOWN".to_string(),
         };
